@@ -17,7 +17,7 @@ CAUGHT = {
     "C12-3": {"C12": "violation"}, "C13-3": {"C13": "violation"}, "C14-3": {"C14": "violation"},
     "C17-3": {"C17": "violation"}, "C20-3": {"C20": "violation"},
     "C05-3": {"C05": "violation"}, "C06-3": {"C06": "violation"}, "C09-3": {"C09": "violation", "C01": "violation"},
-    "C10-3": {"C10": "violation"}, "C15-3": {"C15": "violation", "C11": "not reported"}, "C16-3": {"C16": "violation"},
+    "C10-3": {"C10": "violation"}, "C15-3": {"C15": "violation", "C11": "violation"}, "C16-3": {"C16": "violation"},
     "C18-3": {"C18": "violation"}, "C19-3": {"C19": "violation", "C04": "violation"},
     "C01-4": {"C01": "violation"}, "C02-4": {"C02": "violation"}, "C03-4": {"C03": "violation"}, "C04-4": {"C04": "violation", "C07": "violation"},
     "C05-4": {"C05": "violation"}, "C06-4": {"C06": "violation"}, "C07-4": {"C07": "violation"}, "C08-4": {"C08": "violation"},
@@ -28,7 +28,7 @@ CAUGHT = {
     "C01-5": {"C02": "violation", "C01": "not reported (key rotation inside a world history is not modelled; the key-generation priming of C02 sees it)"},
     "C02-5": {"C02": "violation"}, "C03-5": {"C03": "violation"}, "C04-5": {"C04": "violation"}, "C05-5": {"C05": "violation"},
     "C06-5": {"C06": "violation"}, "C07-5": {"C07": "violation"}, "C08-5": {"C08": "violation", "C14": "violation"},
-    "C09-5": {"C09": "violation", "C04": "violation"}, "C10-5": {"C10": "violation"}, "C11-5": {"C15": "violation", "C11": "not reported"},
+    "C09-5": {"C09": "violation", "C04": "violation"}, "C10-5": {"C10": "violation"}, "C11-5": {"C15": "violation", "C11": "violation"},
     "C12-5": {"C12": "violation", "C13": "violation"}, "C13-5": {"C13": "violation"}, "C14-5": {"C14": "violation"},
     "C15-5": {"C15": "violation"}, "C16-5": {"C16": "violation"}, "C17-5": {"C17": "violation"}, "C18-5": {"C18": "violation"},
     "C19-5": {"C19": "violation"}, "C20-5": {"C20": "violation"},
